@@ -171,6 +171,24 @@ func (c *Cloud) mutated(what string) {
 // orphanOfFailedCreate: created by a call that reported failure and never handed to a caller since.
 func (c *Cloud) orphanOfFailedCreate(id string) bool { return c.createFailed[id] }
 
+// shrinkingOnly tells whether the mutations of the last d are removals only (unassign, detach,
+// delete) and there is at least one: the pool is still on its way down to the band.
+func (c *Cloud) shrinkingOnly(d time.Duration) bool {
+	n := 0
+	for i := len(c.history) - 1; i >= 0; i-- {
+		if time.Since(c.histAt[i]) > d {
+			break
+		}
+		h := c.history[i]
+		if strings.HasPrefix(h, "unassign") || strings.HasPrefix(h, "detach") || strings.HasPrefix(h, "delete") {
+			n++
+			continue
+		}
+		return false
+	}
+	return n > 0
+}
+
 // recentCycle tells whether the mutations of the last d consist of nothing but repeated
 // assign / unassign calls (the pool being trimmed and refilled over and over).
 func (c *Cloud) recentCycle(d time.Duration) bool {
